@@ -137,24 +137,28 @@ def Host.ip6Text (addr : Bytes) : Option Bytes → Bytes
   | none => addr
   | some z => addr ++ 37 :: z
 
-/-- The text of `url.URL.Host` for this authority. -/
-def Host.render : Host → Bytes
+/-- The host as the URL's hostname: no port, no brackets around an IP literal (what
+`url.URL.Hostname()` reports). A trailing dot is part of the hostname. -/
+def Host.hostname : Host → Bytes
   | .name ls dot => Host.nameText ls ++ (if dot then [46] else [])
   | .ip4 a b c d => glue 46 [a, b, c, d]
-  | .ip6 addr z => 91 :: Host.ip6Text addr z ++ [93]
+  | .ip6 addr z => Host.ip6Text addr z
 
-def Authority.render (a : Authority) : Bytes :=
-  a.host.render ++ (match a.port with | none => [] | some p => 58 :: p)
+/-- The text of `url.URL.Host` for this authority. -/
+def Host.render : Host → Bytes
+  | .ip6 addr z => 91 :: Host.ip6Text addr z ++ [93]
+  | h => h.hostname
+
+def portSuffix : Option Bytes → Bytes
+  | none => []
+  | some p => 58 :: p
+
+def Authority.render (a : Authority) : Bytes := a.host.render ++ portSuffix a.port
 
 /-! ### Identity notions of the property -/
 
-/-- The hostname of the URL, lower-cased: the host without port and without the brackets of
-an IP literal (what `url.URL.Hostname()` yields). A trailing dot is part of the hostname. -/
-def specHost (a : Authority) : Bytes :=
-  match a.host with
-  | .name ls dot => lower (Host.nameText ls ++ (if dot then [46] else []))
-  | .ip4 a b c d => glue 46 [a, b, c, d]
-  | .ip6 addr z => lower (Host.ip6Text addr z)
+/-- Host identity: the URL's hostname compared case-insensitively, i.e. lower-cased. -/
+def specHost (a : Authority) : Bytes := lower a.host.hostname
 
 /-- "redirect to www.imroc.cc from imroc.cc is allowed": the first label is dropped when the
 name has at least three. -/
